@@ -1759,6 +1759,13 @@ class Interp:
             ok_ = StructV("std::result::Result", "Ok", {"0": UNIT})
             err_ = StructV("std::result::Result", "Err", {"0": Sel(r_, "#Err.0")})
             return PhiV([(a_, ok_), (Not(a_), err_)])
+        # `r.or(other)` on a receiver whose alternatives are known constructors: the success alternatives stay, every
+        # failure alternative becomes `other`
+        if last == "or" and len(args) == 2 and callee in ("std::result::Result::or", "std::option::Option::or"):
+            flat_ = flatten_phi(args[0])
+            if flat_ and all(isinstance(core(x), StructV) and core(x).variant in ("Ok", "Err", "Some", "None") for _, x in flat_):
+                alts_ = [(c_, x if core(x).variant in ("Ok", "Some") else args[1]) for c_, x in flat_]
+                return alts_[0][1] if len(alts_) == 1 else PhiV(alts_)
         # bool::then_some(x) / then(f): Some(..) exactly when the receiver holds
         if last in ("then_some", "then") and len(args) == 2 and (n.get("recv") or {}).get("ty", "").lstrip("&") == "bool":
             f_ = self.to_formula(args[0])
